@@ -694,6 +694,39 @@ def membership(rep, col, rng, quick):
                     + ("ValueError (not in list)" if idx == 999 else f"delete the element at position {idx}"), info)
 
 
+
+def neutral_scalars(rep):
+    """a * 1, a + 0, a / 1, a - 0, 1 * a ... are results like any other: new objects whose later editing leaves the operand
+    untouched (the operand must stay as it was whatever is done with the result)."""
+    rng = np.random.default_rng([C.seed(), 12, 41])
+    neutral = [("a * 1", lambda a: a * 1), ("a * 1.0", lambda a: a * 1.0), ("1 * a", lambda a: 1 * a), ("a * True", lambda a: a * True),
+               ("a / 1", lambda a: a / 1), ("a + 0", lambda a: a + 0), ("a - 0", lambda a: a - 0), ("a + 0.0", lambda a: a + 0.0),
+               ("a // 1", lambda a: a // 1)]
+    for case in ("dense1d", "dense2d", "irr1d", "irr2d"):
+        for name, fn in neutral:
+            a, _ = gen_pair(rng, case, "ok")
+            sa = snapshot(a)
+            cls, r = classify(lambda: fn(a))
+            rep.case(("neutral", case, name, sa[1] if is_dense(a) else sa[1][0]), kind=f"neutral-scalar/{case}")
+            if cls != 0:
+                continue            # refusals are judged by the scalar checks
+            bad = []
+            if r is a:
+                bad.append("the result IS the operand object")
+            try:
+                arrs = [np.asarray(r.values)] if is_dense(r) else [np.asarray(r.values[k]) for k in r.values.keys()]
+                for v in arrs:
+                    if v.size and v.flags.writeable:
+                        v[...] = v + 1.0
+            except Exception:  # noqa: BLE001
+                pass
+            if snapshot(a) != sa:
+                bad.append("editing the values of the result changed the operand")
+            if bad:
+                rep.violation(f"{name} on {case} data: " + "; ".join(bad) + " (arithmetic must return a new object and leave the "
+                              "operands untouched)", {"case": case, "operation": name, "operand": describe(a)})
+
+
 def run(rep, props, replay=None):
     quick = C.tier() == "quick"
     rng = np.random.default_rng([C.seed(), 12])
@@ -711,4 +744,5 @@ def run(rep, props, replay=None):
     scalars(rep, col, rng, quick)
     equality(rep, col, rng, quick)
     membership(rep, col, rng, quick)
+    neutral_scalars(rep)
     rep.extra["violation_classes"] = {str(k): v for k, v in col.seen.items()}
